@@ -345,6 +345,47 @@ def outdir_cases(binfo, scratch):
     return out
 
 
+def split_name_cases(binfo, scratch):
+    """No injected fault: the parts of a split C output (-Csmax) are named from the first five letters
+    of the unit plus a number.  The number of C files written must not depend on what the unit is
+    called, nor on what else is compiled in the same invocation."""
+    out = []
+    try:
+        src = open(os.path.join(worlds.AXLLIB_TEST, "array1", "array1.as"), "rb").read()
+    except OSError:
+        return out
+    fl = ["-Csmax=10", "-Fc"]
+
+    def ncfiles(files, srcs):
+        w = scratch.new()
+        r = worlds.compile_world(binfo, w, files, fl, srcs, cpu=60)
+        vsim.cleanup_world(w)
+        return r, sorted(k for k in r.files if k.endswith(".c"))
+    r0, base = ncfiles({"zzzzz.as": src}, ["zzzzz.as"])
+    if r0.rc != 0 or len(base) < 3:
+        return out
+    for name in ("abcde001.as", "abcde%03d.as" % (len(base) - 1)):
+        r, got = ncfiles({name: src}, [name])
+        desc = "aldor %s %s" % (" ".join(fl), name)
+        verdict, detail = None, ""
+        fc = worlds.fault_class(r)
+        if fc:
+            verdict, detail = fc, (r.out + r.err)[-200:].decode("latin-1", "replace")
+        elif r.rc == 0 and len(got) != len(base):
+            verdict, detail = "exit0-missing-output", "exit 0 with %d C files where the same source under another name gives %d (%s)" % (len(got), len(base), ", ".join(got))
+        out.append((verdict, detail, desc, "splitname-" + name[:-3]))
+    # two units whose names share their first five letters, one invocation
+    r, got = ncfiles({"share1.as": src, "share2.as": src}, ["share1.as", "share2.as"])
+    verdict, detail = None, ""
+    fc = worlds.fault_class(r)
+    if fc:
+        verdict, detail = fc, (r.out + r.err)[-200:].decode("latin-1", "replace")
+    elif r.rc == 0 and len(got) != 2 * len(base):
+        verdict, detail = "exit0-missing-output", "exit 0 with %d C files for two units that give %d each when compiled under names of their own" % (len(got), len(base))
+    out.append((verdict, detail, "aldor %s share1.as share2.as" % " ".join(fl), "splitname-shared-prefix"))
+    return out
+
+
 def mixed_input_cases(binfo, scratch):
     """No injected fault: a saved form and a source in ONE invocation, in both orders; on exit 0
     every requested kind must exist for the source unit (and those a saved form can give, for it)."""
@@ -448,7 +489,7 @@ def main(argv):
 
     with vsim.Scratch("c18") as scratch:
         if replay and "other_directory" in json.load(open(replay)):
-            od = [x for x in other_directory_cases(binfo, scratch) + explicit_name_cases(binfo, scratch) + error_count_cases(binfo, scratch) + odd_name_cases(binfo, scratch) + mixed_input_cases(binfo, scratch) + outdir_cases(binfo, scratch) if x[3] == json.load(open(replay))["other_directory"]]
+            od = [x for x in other_directory_cases(binfo, scratch) + explicit_name_cases(binfo, scratch) + error_count_cases(binfo, scratch) + odd_name_cases(binfo, scratch) + mixed_input_cases(binfo, scratch) + outdir_cases(binfo, scratch) + split_name_cases(binfo, scratch) if x[3] == json.load(open(replay))["other_directory"]]
             vsim.say("replay: %s" % [(v, d) for v, d, _, _ in od])
             if any(v for v, _, _, _ in od):
                 vsim.say("VIOLATION property=%s replay=%s" % (PID, replay))
@@ -621,11 +662,11 @@ def main(argv):
             out.violations.append({"key": key, "cls": v2, "detail": d2, "replay": rp})
 
         # ---- saved forms in another directory (independent expectation, no fault) -----------
-        od = other_directory_cases(binfo, scratch) + explicit_name_cases(binfo, scratch) + error_count_cases(binfo, scratch) + odd_name_cases(binfo, scratch) + mixed_input_cases(binfo, scratch) + outdir_cases(binfo, scratch)
+        od = other_directory_cases(binfo, scratch) + explicit_name_cases(binfo, scratch) + error_count_cases(binfo, scratch) + odd_name_cases(binfo, scratch) + mixed_input_cases(binfo, scratch) + outdir_cases(binfo, scratch) + split_name_cases(binfo, scratch)
         for verdict, detail, desc, kind in od:
             if not verdict:
                 continue
-            key = "%s:%s:%s" % (verdict, "explicit-name" if kind.startswith("name-") else "error-count" if kind.startswith("errors-") else "source-name" if kind.startswith("srcname-") else "mixed-inputs" if kind.startswith("mixed-") else "output-directory" if kind.startswith("outdir-") else "other-directory-input", kind)
+            key = "%s:%s:%s" % (verdict, "explicit-name" if kind.startswith("name-") else "error-count" if kind.startswith("errors-") else "source-name" if kind.startswith("srcname-") else "mixed-inputs" if kind.startswith("mixed-") else "output-directory" if kind.startswith("outdir-") else "split-c-names" if kind.startswith("splitname-") else "other-directory-input", kind)
             text = out.classify(key)
             if text is not None:
                 out.known.append({"key": key, "text": text})
